@@ -21,7 +21,7 @@ RULE = ('EconSpecs (1-2 zones, with/without external sector, so one or many coun
         'throw-away models are built first to shift the process-wide ID counter. Non-trivial: at least one name requested '
         'before full codes exist and embedded outside the requesting sector. Distinct: sha1 of the spec.')
 ASSUMPTIONS = [
-    'local variable names are not k and do not shadow a function they call',
+    'local variable names are not k and do not shadow a function they call (a local variable named t IS generated)',
     'valuation check uses Python eval on both the sector-local and the emitted right-hand side with the same values',
 ]
 
@@ -61,7 +61,8 @@ def case(draw):
         r = draw(st.sampled_from(roles))
         keyed.append({'kind': draw(st.sampled_from(['ic-id', 'ic-fullcode', 'exo-object', 'exo-fullcode'])), 'sector': r,
                       'value': econ.dec2(draw(st.integers(-5000, 5000)))})
-    return {'spec': spec, 'ops': ops, 'keyed': keyed, 'throwaway': draw(st.sampled_from([0, 1, 3, 0]))}
+    local_t = draw(st.sampled_from(roles)) if draw(st.sampled_from([True, False, False])) else None
+    return {'spec': spec, 'ops': ops, 'keyed': keyed, 'throwaway': draw(st.sampled_from([0, 1, 3, 0])), 'local_t': local_t}
 
 
 def run(case_):
@@ -121,6 +122,11 @@ def run(case_):
                     dst = S[tuple(o['dst'])]
                     dst.AddVariable('EMB%d' % i, 'embedded name', text)
                     requests.append((tuple(o['dst']), 'EMB%d' % i, tuple(o['src']), var, phase))
+        # a sector-local variable may be called t (a rate, say): it is an ordinary local name, not the time axis
+        if case_.get('local_t') is not None:
+            sec = S[tuple(case_['local_t'])]
+            sec.AddVariable('t', 'a local variable that happens to be called t', '0.25')
+            sec.AddVariable('USES_t', 'uses the local t', '2.0*t + 1.0')
         for j, kq in enumerate(case_['keyed']):
             sec = S[tuple(kq['sector'])]
             if kq['kind'].startswith('ic'):
